@@ -255,6 +255,8 @@ def build_feeder(w):
     body.externals = dict(body.externals, **{'<callable>': ext_callable_checked})
     body.loops[1]['inv'] = dict(body.loops[1]['inv'],
                                 index_of_the_last_task_read='i == ite(_i > 0, _i - 1, entry(i)) and taskseq == entry(taskseq)')
+    # (C01 also lets a lazy task sequence raise while it is iterated; that path is C01's to check, not this clause's)
+    body.loops[1].pop('iter_raises', None)
     body.variants = ['feeder']
     return [body]
 
